@@ -10,6 +10,7 @@ Driver for the C06 correspondence stream `pass` and the T-ir checkers.  Requests
   inner <e> <e>                 -> <e>
   oper <op> <e> <e>             -> <e> | err-assertion | err-TypeError    (OperExpr with broadcasting)
   dx <vars> <e> <k> <times> <par> -> <e> | err-…                      (Dx)
+  phys1 <dim> <bf> <k>          -> <e>         (replace_physical_derivs on a first physical derivative of a basis function)
   vec <bfs> <e>                 -> <e>                                (substitute_vec_components + ravel)
   keys <table> <roots>          -> class ids of all nodes in post-order (grouping of extract_common_expressions)
   inline <defs> <e>             -> <e>         (translation validation of CSE / trivial-variable elimination)
@@ -19,6 +20,7 @@ import Pyiga.Proto
 import Pyiga.Model.VForm
 import Pyiga.Model.VFormIO
 import Pyiga.Model.SLP
+import Pyiga.Model.VFormPhys
 
 open Pyiga Pyiga.Proto Pyiga.VForm Pyiga.SLP
 
@@ -58,6 +60,7 @@ def request : P String := do
       match dxTop vt (vt.length + 1) e k times par with
       | .ok r => pure (showExpr r)
       | .error s => pure s
+  | "phys1" => do let dim ← nat; let b ← pBFun; let k ← nat; pure (showExpr (physToPara1 dim b k))
   | "vec" => do let bfs ← list pBFun; let e ← pExpr; pure (showExpr (substVec bfs e))
   | "keys" => do
       let t ← pKeyTable; let roots ← list pExpr
